@@ -141,12 +141,20 @@ func c16NewEnv(group string) (*c16Env, error) {
 		})
 		e.tcp.ServeStream(l)
 	}
-	for _, form := range []string{"udp://", "bare"} {
+	for _, form := range c16Forms {
 		addr := fmt.Sprintf("127.0.0.1:%d", e.port)
-		if form == "udp://" {
+		opt := upstream.Opt{}
+		switch form {
+		case "udp://":
 			addr = "udp://" + addr
+		case "dialaddr-name": // URL host is a name that does not resolve; both legs must go to dial_addr
+			opt.DialAddr = addr
+			addr = "udp://dns.c16.invalid:5353"
+		case "dialaddr-ip": // URL host is another (dead) address; both legs must go to dial_addr
+			opt.DialAddr = addr
+			addr = fmt.Sprintf("127.0.0.77:%d", e.port)
 		}
-		u, err := upstream.NewUpstream(addr, upstream.Opt{})
+		u, err := upstream.NewUpstream(addr, opt)
 		if err != nil {
 			e.close()
 			return nil, err
@@ -169,6 +177,7 @@ func (e *c16Env) close() {
 	}
 }
 
+var c16Forms = []string{"udp://", "bare", "dialaddr-name", "dialaddr-ip"}
 var c16UDP = []string{"tc", "ok", "silent"}
 var c16TCP = []string{"ok", "refuse", "silent", "garbage", "close"}
 var c16Types = []uint16{1, 28, 16, 15, 2, 5, 6, 12, 33, 65, 255, 257}
@@ -180,7 +189,7 @@ func c16Gen(r *gen.R, i int, udp, tcp string) *c16Ex {
 	if tcp == "refuse" {
 		ex.Group = "refuse"
 	}
-	ex.Form = gen.Pick(r, []string{"udp://", "bare"})
+	ex.Form = gen.Pick(r, c16Forms)
 	const al = "abcdefghijklmnopqrstuvwxyz0123456789-"
 	name := fmt.Sprintf("q%d", i)
 	for n := r.Range(1, 4); n > 0; n-- {
